@@ -155,6 +155,9 @@ func (v *Verifier) external(st *State, in *ssa.Call, fn *ssa.Function, args []*T
 		i := BVar("i$j", SInt)
 		allNil := Forall([]*Term{i}, Implies(And(Le(IntLit(0), i), Lt(i, Sel(s, 2))), Eq(Select(arr, Add(Sel(s, 1), i)), zeroTerm(SIface))))
 		st.assume(Eq(Eq(e, zeroTerm(SIface)), allNil))
+		// the direction callers rely on, in a form the instantiation of hypotheses reaches
+		st.assume(Implies(Eq(e, zeroTerm(SIface)), allNil))
+		st.assume(Implies(Eq(e, zeroTerm(SIface)), Implies(Lt(IntLit(0), Sel(s, 2)), Eq(Select(arr, Sel(s, 1)), zeroTerm(SIface)))))
 		for _, c := range typeInv(e, sig.Results().At(0).Type(), 0) {
 			st.assume(c)
 		}
